@@ -855,7 +855,7 @@ func A(expr string, id, src int, bt bool) Add {
 
 func Corpus() []Case {
 	return []Case{
-		{ // C02-F1 (DESIGN appendix A): /foo/** without backtracking still falls back to /**
+		{ // C02-F1 (DESIGN appendix A): /foo/** without backtracking fell back to /** (fixed by e897fef; kept as regression case)
 			Adds: []Add{A("/foo/**", 1, 1, false), A("/**", 2, 2, false), A("/foo/:x", 3, 3, true)},
 			Lookups: []Lookup{
 				{Path: "/foo/bar/baz", OK: []int{2}},
